@@ -126,7 +126,7 @@ def main(argv=None):
         print(f"UNREPRODUCED: bucket={b} count={rec['count']} failed inside the run but its replay ({path}) passes in a fresh process; "
               f"not reported as a violation. detail={json.dumps(rec['detail'])[:600]}")
     if unreproduced:
-        ev_path = os.path.join(VERIF_DIR, "evidence", prop_id + ".json")
+        ev_path = os.path.join(core.evidence_dir(), prop_id + ".json")
         with open(ev_path) as f:
             ev = json.load(f)
         ev["coverage"]["unreproduced_failures"] = {b: rec["count"] for b, rec, _ in unreproduced}
